@@ -38,6 +38,9 @@ def run(chk):
         for kr in (str(key), str(key) + str(other), str(other), "e"):
             for r in roles:
                 cases.append((buf, r, kr)); tags.append("roles-and-keyrings")
+        # roles that are not present but are prefixes / extensions of the one that is, and the empty role
+        for r in sorted({role[:4], role[:1], b"", role + b"x", role.upper()}):
+            cases.append((buf, r, str(key))); tags.append("near-miss-roles")
         # single-byte corruption inside the three signed members and the signature
         offs = argen.header_offsets(ms)
         spans = [(offs[i] + 60, offs[i] + 60 + len(ms[i]["data"])) for i in (0, 1, 2, 3)]
@@ -51,7 +54,9 @@ def run(chk):
         # decoys: a second control.* / data.* member, a repeated name
         decoys = [ms + [debpkg.member(b"control.tar.xz", b"decoy")], ms + [debpkg.member(b"data.tar", b"decoy")],
                   [ms[0], debpkg.member(b"control.evil.tar", ms[1]["data"])] + ms[1:], ms[:3] + [debpkg.member(b"data.tar.gz.bak", ms[2]["data"])] + ms[3:],
-                  ms + [debpkg.member(ms[1]["name"], ms[1]["data"])], ms + [debpkg.member(b"debian-binary", b"2.0\n")]]
+                  ms + [debpkg.member(ms[1]["name"], ms[1]["data"])], ms + [debpkg.member(b"debian-binary", b"2.0\n")],
+                  [ms[0], debpkg.member(b"control.sig", b"not a tarball\n")] + ms[1:], ms + [debpkg.member(b"data.", b"")],
+                  ms[:2] + [debpkg.member(b"control.", b"x")] + ms[2:]]
         for d in decoys:
             for _ in range(5):
                 cases.append((argen.render(d), role, str(key))); tags.append("decoy-members")
